@@ -323,6 +323,43 @@ pub(super) mod verif_hooks {
             .collect();
         interpolate_deltas(points, &flags, contours, out_points).is_some()
     }
+
+    /// Runs `simple_glyph::<i32, Fixed>` for the glyph with the given unscaled
+    /// `points` (including the four phantom points) and contour end points,
+    /// with freshly allocated flag / working / delta buffers of
+    /// `points.len()` entries. Returns the accumulated 16.16 deltas, or
+    /// `None` when the function returns an error.
+    pub fn simple_glyph_deltas_fixed(
+        gvar: &Gvar,
+        glyph_id: GlyphId,
+        coords: &[F2Dot14],
+        points: &[Point<i32>],
+        contours: &[u16],
+    ) -> Option<alloc::vec::Vec<Point<Fixed>>> {
+        let mut flags = alloc::vec![PointFlags::default(); points.len()];
+        let mut iup_buffer = alloc::vec![Point::<Fixed>::default(); points.len()];
+        let mut deltas = alloc::vec![Point::<Fixed>::default(); points.len()];
+        let glyph = SimpleGlyph {
+            points,
+            flags: &mut flags,
+            contours,
+        };
+        simple_glyph(gvar, glyph_id, coords, glyph, &mut iup_buffer, &mut deltas).ok()?;
+        Some(deltas)
+    }
+
+    /// Runs `composite_glyph::<Fixed>` with a delta buffer of `count`
+    /// entries (components plus four phantom points).
+    pub fn composite_glyph_deltas_fixed(
+        gvar: &Gvar,
+        glyph_id: GlyphId,
+        coords: &[F2Dot14],
+        count: usize,
+    ) -> Option<alloc::vec::Vec<Point<Fixed>>> {
+        let mut deltas = alloc::vec![Point::<Fixed>::default(); count];
+        composite_glyph(gvar, glyph_id, coords, &mut deltas).ok()?;
+        Some(deltas)
+    }
 }
 
 #[cfg(test)]
